@@ -2,6 +2,7 @@ package mp4
 
 import (
 	"encoding/binary"
+	"fmt"
 	"io"
 
 	"github.com/Eyevinn/mp4ff/bits"
@@ -66,12 +67,18 @@ func DecodeStyp(hdr BoxHeader, startPos uint64, r io.Reader) (Box, error) {
 	if err != nil {
 		return nil, err
 	}
+	if len(data) < 8 {
+		return nil, fmt.Errorf("styp payload too short: %d bytes", len(data))
+	}
 	b := StypBox{data: data}
 	return &b, nil
 }
 
 // DecodeStypSR - box-specific decode
 func DecodeStypSR(hdr BoxHeader, startPos uint64, sr bits.SliceReader) (Box, error) {
+	if hdr.payloadLen() < 8 {
+		return nil, fmt.Errorf("styp payload too short: %d bytes", hdr.payloadLen())
+	}
 	b := StypBox{data: sr.ReadBytes(int(hdr.Size) - hdr.Hdrlen)}
 	return &b, sr.AccError()
 }
